@@ -887,10 +887,29 @@ class Norm:
                 return None
             b = self.unok(params)
             assert b[1] == "argon2::params::ParamsBuilder::build"
-            tcost = b[2][0]; assert tcost[1] == "argon2::params::ParamsBuilder::t_cost"
-            pcost = tcost[2][0]; assert pcost[1] == "argon2::params::ParamsBuilder::p_cost"
-            mcost = pcost[2][0]; assert mcost[1] == "argon2::params::ParamsBuilder::m_cost"
-            assert mcost[2][0] == ("call", "argon2::params::ParamsBuilder::new", ())
+            # the three setters, chained (`new().m_cost(m).p_cost(p).t_cost(t)`) or as separate statements on a `mut builder`,
+            # in any order, each exactly once
+            sets = {}
+            cur = b[2][0]
+            for _ in range(8):
+                if isinstance(cur, tuple) and cur and cur[0] == "call" and cur[1].startswith("argon2::params::ParamsBuilder::") and cur[1] != "argon2::params::ParamsBuilder::new":
+                    nm_ = cur[1].rsplit("::", 1)[-1]
+                    assert nm_ in ("m_cost", "p_cost", "t_cost") and nm_ not in sets
+                    sets[nm_] = cur[2][1]
+                    cur = cur[2][0]
+                elif isinstance(cur, tuple) and cur and cur[0] == "mut" and isinstance(cur[2], tuple) and str(cur[2][0]).startswith("argon2::params::ParamsBuilder::"):
+                    nm_ = str(cur[2][0]).rsplit("::", 1)[-1]
+                    assert nm_ in ("m_cost", "p_cost", "t_cost") and nm_ not in sets and cur[2][1] == 0
+                    sets[nm_] = cur[2][2][0]
+                    cur = cur[1]
+                else:
+                    break
+            assert cur == ("call", "argon2::params::ParamsBuilder::new", ()) and set(sets) == {"m_cost", "p_cost", "t_cost"}
+            class _S:      # keep the names used below
+                pass
+            mcost = (None, None, (None, sets["m_cost"]))
+            tcost = (None, None, (None, sets["t_cost"]))
+            pcost = (None, None, (None, sets["p_cost"]))
             mem = self.unok(mcost[2][1])
             if isinstance(mem, tuple) and mem[0] == "NARROW":
                 mem = mem[1]
